@@ -10,6 +10,7 @@ import (
 	"bytes"
 	"compress/flate"
 	"compress/gzip"
+	"encoding/binary"
 	"fmt"
 	"io"
 	"net/url"
@@ -31,11 +32,14 @@ func init() { core.Register(P{}) }
 
 func (P) ID() string { return "C11" }
 func (P) Rule() string {
-	return "case = one bidirectional stream built by grpc.AsStreamProcessorFactory over recording sinks: HEADERS (content-type, grpc-encoding " +
-		"identity/gzip/deflate/snappy), then the length-prefixed byte stream of 0..n messages (empty..1MiB, compressed flag 0/1, sender's own " +
+	return "case = one bidirectional stream built by grpc.AsStreamProcessorFactory over recording sinks: HEADERS as an ordered field list (content-type " +
+		"before, between or after 0..3 grpc-encoding fields identity/gzip/deflate/snappy of which the last counts, look-alike field names, content-type " +
+		"variants, Trailers-Only), then the length-prefixed byte stream of 0..n messages (empty..1MiB, compressed flag 0/1, sender's own " +
 		"compression level) cut into DATA frames - every one of the 2^(n-1) cut sets for short streams, all 1- and sampled 2-cut sets for medium, " +
-		"random cuts for long - with END_STREAM on the last DATA frame, on a separate empty DATA frame or on trailers, in either or both directions; " +
-		"plus malformed streams (truncated, bad flag bytes, undecodable payloads, unknown encodings), non-gRPC streams and PRIORITY/RST/PUSH frames; " +
+		"random cuts for long, zero-length frames without END_STREAM at every position (short streams) or sprinkled in - with END_STREAM on the last " +
+		"DATA frame, on a separate empty DATA frame or on trailers, in either or both directions; " +
+		"plus malformed streams (truncated, bad flag bytes, undecodable payloads, unknown encodings), non-gRPC streams, PRIORITY/RST/PUSH frames " +
+		"and the uint32 prefix arithmetic at its boundaries; " +
 		"distinct by hash of the op list; non-trivial when a gRPC byte stream carrying at least one message arrives in at least two DATA frames, " +
 		"or a non-gRPC stream carries at least one DATA frame"
 }
@@ -226,6 +230,7 @@ type dirState struct {
 	enc       string
 	encKnown  bool
 	dead      bool
+	fedData   bool // a DATA frame of the gRPC stream has been fed in this direction
 }
 
 type ex struct {
@@ -233,7 +238,16 @@ type ex struct {
 	d         [2]*dirState
 	proc      [2]h2.Processor
 	grpc      bool // oracle's reading: a content-type: application/grpc header field has been seen
+	specOnly  bool // ... only a content-type the gRPC spec also calls gRPC (application/grpc+proto, application/grpc;...) has
+	mixed     bool // the bare media type arrived after such a variant: no reading of the stream is attempted
 	reportF11 bool
+}
+
+// specGrpc: the content-types that announce gRPC according to the gRPC-over-HTTP/2 specification
+// ("application/grpc" [("+proto" / "+json" / {custom})]) and, like grpc-go, a ';' parameter.
+func specGrpc(v string) bool {
+	const base = "application/grpc"
+	return v == base || (strings.HasPrefix(v, base) && (v[len(base)] == '+' || v[len(base)] == ';'))
 }
 
 type sink struct {
@@ -343,6 +357,31 @@ func (e *ex) Do(op string) core.Result {
 	}
 	e.cur = nil
 	switch t[0] {
+	case "u32lt": // u32lt <n> <l>: Go's `uint32(n) < l` for an int n (adapter.Data compares uint32(a.buffer.Len()) with a.length)
+		if len(t) != 3 {
+			return bad
+		}
+		n, err1 := strconv.ParseInt(t[1], 10, 64)
+		l, err2 := strconv.ParseUint(t[2], 10, 32)
+		if err1 != nil || err2 != nil || n < 0 {
+			return bad
+		}
+		core.Count("arith:u32lt")
+		return core.Result{Impl: b01(uint32(int(n)) < uint32(l))}
+	case "pfx": // pfx <n>: what emitter.Message writes for a payload of n bytes, read back as adapter.Data reads it
+		if len(t) != 2 {
+			return bad
+		}
+		n, err := strconv.ParseInt(t[1], 10, 64)
+		if err != nil || n < 0 {
+			return bad
+		}
+		var buf bytes.Buffer
+		binary.Write(&buf, binary.BigEndian, uint32(int(n)))
+		var l uint32
+		binary.Read(bytes.NewReader(buf.Bytes()), binary.BigEndian, &l)
+		core.Count("arith:pfx")
+		return core.Result{Impl: core.Hex(buf.Bytes()) + " " + strconv.FormatUint(uint64(l), 10)}
 	case "report-known":
 		e.reportF11 = true
 		return core.Result{Impl: "ok", SkipModel: true}
@@ -446,18 +485,33 @@ func (e *ex) header(dir int, hs []hf, es bool) core.Result {
 	for _, h := range hs {
 		hh = append(hh, hpack.HeaderField{Name: h.n, Value: h.v})
 	}
-	// the oracle's own reading of the header block
+	// the oracle's own reading of the header block: is the stream gRPC (whichever field says so,
+	// wherever it stands), and which encoding does this direction use (the last grpc-encoding field)
 	for _, h := range hs {
-		if h.n == "content-type" && h.v == "application/grpc" && !e.grpc {
+		if h.n != "content-type" || !specGrpc(h.v) {
+			continue
+		}
+		switch {
+		case h.v == "application/grpc" && !e.grpc:
 			e.grpc = true
+			if e.specOnly {
+				e.mixed = true
+				core.Count("hdr:mixed-announcement")
+			}
+			e.d[0].sinkFrom, e.d[1].sinkFrom = len(e.d[0].sink), len(e.d[1].sink)
+		case h.v != "application/grpc" && !e.grpc && !e.specOnly:
+			e.specOnly = true
 			e.d[0].sinkFrom, e.d[1].sinkFrom = len(e.d[0].sink), len(e.d[1].sink)
 		}
 	}
-	if e.grpc {
+	if e.grpc || e.specOnly {
 		for _, h := range hs {
 			if h.n == "grpc-encoding" {
 				switch h.v {
 				case "identity", "gzip", "deflate", "snappy":
+					if d.fedData && d.enc != h.v {
+						d.encKnown = false // the encoding changes in mid-stream: outside the statement
+					}
 					d.enc = h.v
 				default:
 					d.encKnown = false
@@ -475,6 +529,20 @@ func (e *ex) header(dir int, hs []hf, es bool) core.Result {
 	}
 	r := core.Result{Impl: e.line()}
 	want := "sh:" + b01(es) + ":" + showHdrs(hs)
+	if e.mixed {
+		return r
+	}
+	if !e.grpc && e.specOnly {
+		// gRPC by the specification, not by the code's exact comparison (finding F11d): either
+		// treatment of the block is accepted here, the stream is judged at its end
+		core.Count("hdr:grpc-subtype")
+		if es && err == nil {
+			if f, sig := e.judgeEnd(dir, false); f != "" {
+				r.Fail, r.Sig = f, sig
+			}
+		}
+		return r
+	}
 	if !e.grpc {
 		core.Count("hdr:non-grpc")
 		if r.Impl != want {
@@ -506,8 +574,9 @@ func (e *ex) data(dir int, b []byte, es bool) core.Result {
 	if d.dead {
 		return core.Result{Impl: "out-of-model", SkipModel: true}
 	}
-	if e.grpc { // the oracle's reading: only DATA of a stream already announced as gRPC is gRPC
+	if e.grpc || e.specOnly { // the oracle's reading: only DATA of a stream already announced as gRPC is gRPC
 		d.in = append(d.in, b...)
+		d.fedData = true
 	}
 	d.lastEmpty = len(b) == 0
 	err := e.proc[dir].Data(append([]byte{}, b...), es)
@@ -517,6 +586,18 @@ func (e *ex) data(dir int, b []byte, es bool) core.Result {
 		core.Count("data:error:" + errKind(err))
 	}
 	r := core.Result{Impl: e.line()}
+	if e.mixed {
+		return r
+	}
+	if !e.grpc && e.specOnly {
+		core.Count("data:grpc-subtype")
+		if es && err == nil {
+			if f, sig := e.judgeEnd(dir, true); f != "" {
+				r.Fail, r.Sig = f, sig
+			}
+		}
+		return r
+	}
 	if !e.grpc {
 		core.Count("data:non-grpc")
 		want := "sd:" + b01(es) + ":" + showBytes(b)
@@ -594,6 +675,31 @@ func (e *ex) judgeEnd(dir int, viaData bool) (string, string) {
 	}
 	core.Count("oracle:judged")
 	core.Count(fmt.Sprintf("oracle:judged:msgs=%d", min(len(want), 4)))
+
+	// the known defect F11d: a stream announced with a content-type the gRPC specification allows
+	// but the code does not compare equal to "application/grpc" is not processed at all - every
+	// frame is forwarded untouched and the processor is shown nothing.
+	if e.specOnly && !e.grpc {
+		var raw []byte
+		for i, s := range d.sink {
+			if i >= d.sinkFrom && s.kind == 'd' {
+				raw = append(raw, s.data...)
+			}
+		}
+		if len(d.shown) == 0 && bytes.Equal(raw, d.in) {
+			if len(want) == 0 {
+				return "", ""
+			}
+			core.Count("f11d:pattern-seen")
+			if e.reportF11 {
+				core.Count("f11d:reported")
+				return fmt.Sprintf("stream announced as gRPC with a content-type subtype or parameter carries %d message(s): the processor was shown none (forwarded untouched as non-gRPC)", len(want)),
+					"c11:grpc-subtype-not-recognised"
+			}
+			return "", ""
+		}
+		// otherwise it was processed: judged like any gRPC stream
+	}
 
 	// the known defect F11b: END_STREAM on an empty DATA frame while no message is pending is
 	// turned into Message(nil, true) and re-emitted as one more, empty, message.
